@@ -693,6 +693,14 @@ class C20(Prop):
             fail = Failure('property', 'GET /peripherals after the restore differs from the backup: ids '
                            f'{[e.get("id") for e in pa]} -> {[e.get("id") for e in pc]}; '
                            + c07mod.C07._first_diff({'peripherals': pa}, {'peripherals': pc}), real={'backup': pa, 'after': pc})
+        # the static peripheral comes from the settings (same on source and target): it must be listed, flagged static, at
+        # every point — before the backup (the harness resets the hub with PUT /peripherals []) and after every PUT
+        for label, doc in (('before the backup', pa), ('after the restore', pc), ('after the second restore', pc2),
+                           ('after the corrupted PUT /peripherals', out['pbad_left'])):
+            if fail is None and not any(e.get('static') is True and e.get('id') == STATIC_PERIPHERAL['name'] and
+                                        e.get('driver') == STATIC_PERIPHERAL['driver'] for e in doc):
+                fail = Failure('property', f'the static peripheral {STATIC_PERIPHERAL["name"]!r} of the settings is not listed (static) '
+                               f'by GET /peripherals {label}: {[(e.get("id"), e.get("static")) for e in doc]}', real=doc)
         want_pp = sorted(i for e in pa for i in pports(e))
         if fail is None and self._pport_ids(out['c']) != want_pp:
             fail = Failure('property', f'ports of the peripherals after the restore: {self._pport_ids(out["c"])}, the backup\'s '
